@@ -438,6 +438,10 @@ func __callNOf(log string) int { return 0 }
 func __callResOf[T any](log string, i int) T { var z T; return z }
 func __callArgOf[T any](log string, i int) T { var z T; return z }
 func __callArg2Of[T any](log string, i int) T { var z T; return z }
+func __callRecvOf[T any](log string, i int) T { var z T; return z }
+func __callStrOf(log string, i int) string { return "" }
+func __libFailN() int { return 0 }
+func __fileClosed[T any](f *T) bool { return false }
 func __callRetOf(log string, i int) bool { return true }
 func __spawnArg(i int) uint64 { return 0 }
 func __spawnIs(i int, fn string) bool { return true }
@@ -587,7 +591,7 @@ func splitTop(s string, sep byte) []string {
 
 var (
 	oldRe    = regexp.MustCompile(`\bold\(`)
-	forallRe = regexp.MustCompile(`\b(forall|forall2|forall3|exists|exists2|ite|visited|mapAt|mapHas|witness|countRecv|distinctRefs|allocatedRef|sentN|sentAt|recvN|recvAt|closed|held|rheld|fresh|mapEq|sameElems|sameArray|sameSlice|allocatedElemsKept|allocated|arrayAllocated|same|nilSlice|disjoint|elemsUnchangedExcept|elemsUnchangedExcept2|spawnN|spawnArg|spawnIs|callNOf|callRetOf|callResOf\[[A-Za-z0-9_.*\[\]]+\]|callArg2Of\[[A-Za-z0-9_.*\[\]]+\]|callArgOf\[[A-Za-z0-9_.*\[\]]+\]|callN|callIs|callRet|decoded\[[A-Za-z0-9_.*\[\]]+\]|decodeOK\[[A-Za-z0-9_.*\[\]]+\]|nextDecoded\[[A-Za-z0-9_.*\[\]]+\]|nextDecodeOK\[[A-Za-z0-9_.*\[\]]+\]|logN|logAt\[[A-Za-z0-9_.*\[\]]+\])\(`)
+	forallRe = regexp.MustCompile(`\b(forall|forall2|forall3|exists|exists2|ite|visited|mapAt|mapHas|witness|countRecv|distinctRefs|allocatedRef|sentN|sentAt|recvN|recvAt|closed|held|rheld|fresh|mapEq|sameElems|sameArray|sameSlice|allocatedElemsKept|allocated|arrayAllocated|same|nilSlice|disjoint|elemsUnchangedExcept|elemsUnchangedExcept2|spawnN|spawnArg|spawnIs|callNOf|callRetOf|callResOf\[[A-Za-z0-9_.*\[\]]+\]|callRecvOf\[[A-Za-z0-9_.*\[\]]+\]|callStrOf|libFailN|fileClosed|callArg2Of\[[A-Za-z0-9_.*\[\]]+\]|callArgOf\[[A-Za-z0-9_.*\[\]]+\]|callN|callIs|callRet|decoded\[[A-Za-z0-9_.*\[\]]+\]|decodeOK\[[A-Za-z0-9_.*\[\]]+\]|nextDecoded\[[A-Za-z0-9_.*\[\]]+\]|nextDecodeOK\[[A-Za-z0-9_.*\[\]]+\]|logN|logAt\[[A-Za-z0-9_.*\[\]]+\])\(`)
 	assertRe = regexp.MustCompile(`\bassert\(`)
 )
 
